@@ -66,6 +66,15 @@ def build_harness(race=False, name="vharness"):
         pass
     env = dict(GOENV)
     cmd = ["go", "build", "-tags", "verif", "-o", out]
+    if os.path.abspath(REPO) != "/repo":
+        # development aid: build against another checkout (VERIF_REPO) without touching /repo
+        tag = hashlib.sha1(REPO.encode()).hexdigest()[:8]
+        alt = os.path.join(HARNESS, "go.alt-%s.mod" % tag)
+        with open(alt, "w") as f:
+            f.write(open(os.path.join(HARNESS, "go.mod")).read().replace("=> /repo", "=> " + os.path.abspath(REPO)))
+        shutil.copyfile(os.path.join(HARNESS, "go.sum"), alt[:-4] + ".sum")
+        out = out + "-alt-" + tag
+        cmd = ["go", "build", "-modfile", alt, "-tags", "verif", "-o", out]
     if race:
         cmd.insert(2, "-race")
         env["CGO_ENABLED"] = "1"
